@@ -8,7 +8,7 @@ import (
 )
 
 func init() {
-	register(&Rule{ID: "C13.f", Doc: "values gathered token by token are the tokens joined by single spaces: every iteration writes its token, and the separator — one space — is written exactly when something was written before", Floor: 3, Run: c13f})
+	register(&Rule{ID: "C13.f", Doc: "values gathered token by token are the tokens joined by single spaces: every iteration writes its token, and the separator — one space — is written exactly when something was written before", Floor: 4, Run: c13f})
 }
 
 // c13f: a constant's value, a map script condition and comparison value are gathered in a
